@@ -1026,6 +1026,8 @@ pub(crate) struct SubRenderer<D: TextDecorator> {
     decorator: D,
     ann_stack: Vec<D::Annotation>,
     text_filter_stack: Vec<fn(&str) -> Option<String>>,
+    /// The depth of nested struck out regions.
+    strikeout_depth: usize,
     /// The depth of `<pre>` block stacking.
     pre_depth: usize,
     /// The current stack of whitespace wrapping setting
@@ -1164,6 +1166,7 @@ impl<D: TextDecorator> SubRenderer<D> {
             ws_stack: Vec::new(),
             pre_depth: 0,
             text_filter_stack: Vec::new(),
+            strikeout_depth: 0,
             pending_frags: Default::default(),
         }
     }
@@ -1728,15 +1731,27 @@ impl<D: TextDecorator> Renderer for SubRenderer<D> {
         self.ann_stack.push(annotation);
         self.add_inline_text(&s)?;
         if self.options.use_unicode_strikeout {
-            self.text_filter_stack.push(filter_text_strikeout);
+            // Text which is already struck out doesn't need striking out
+            // again for a nested element; doing so would cost time and
+            // output size proportional to the nesting depth per character.
+            if self.strikeout_depth == 0 {
+                self.text_filter_stack.push(filter_text_strikeout);
+            }
+            self.strikeout_depth += 1;
         }
         Ok(())
     }
     fn end_strikeout(&mut self) -> Result<()> {
         if self.options.use_unicode_strikeout {
-            self.text_filter_stack
-                .pop()
+            self.strikeout_depth = self
+                .strikeout_depth
+                .checked_sub(1)
                 .expect("end_strikeout() called without a corresponding start_strokeout()");
+            if self.strikeout_depth == 0 {
+                self.text_filter_stack
+                    .pop()
+                    .expect("end_strikeout() called without a corresponding start_strokeout()");
+            }
         }
         let s = self.decorator.decorate_strikeout_end();
         self.add_inline_text(&s)?;
